@@ -13,7 +13,7 @@ except ImportError:
 for crate, feats, profile, hook in BUILDS:
     if not os.path.isdir(os.path.join(VERIF, "harness", crate)):
         continue
-    path, log = cargo_build(crate, feats, profile, hook)
+    path, log = cargo_build(crate, feats, profile, hook, tag=crate + ('-' + '-'.join(feats) if feats else '') + ('-hook' if hook else ''))
     print("cargo", crate, feats, profile, "hook" if hook else "", "->", path or ("FAILED\n" + log))
     if not path:
         rc = 1
